@@ -19,7 +19,7 @@ import itertools
 
 from ..absint import TOP, Evaluator, Obj, Sym, Unmodelled
 from ..geometry import FACES, NS, POSITIONS, SHIFTS, length, neighbours
-from ..harness import dispatch_models, run_dispatch, sig_1d, da_attr_models, da_method_models
+from ..harness import foreign_ops, dispatch_models, run_dispatch, sig_1d, da_attr_models, da_method_models
 from ..registry import extract, parse_signature
 from ..seqsem import AxisDiscipline, LengthMismatch, Red, interp_np, lin
 from ..xmodel import COMMON_MODELS, dimsym, make_da, make_grid
@@ -230,7 +230,9 @@ def check(ctx):
                     problems.append(f"R01.3: result dimensions {v.attrs.get('dims')} instead of the input's order with the axis dimension replaced {tuple(exp_dims)}")
                 # between the input and the returned array only the per-axis applications and re-orderings may happen:
                 # a cast, rounding, masking ... of the stencil's result changes the values the property fixes
-                extra = [e[0] for e in v.eff if e[0] not in ("copy", "UFUNC", "transpose")]
+                extra, unknown_ops = foreign_ops(v.eff, expected=("UFUNC",))
+                if unknown_ops:
+                    raise Unmodelled(f"operation(s) {unknown_ops} on the dispatch result")
                 if v.name != "da" or extra:
                     problems.append(f"the returned array is {v.name!r} after {[e[0] for e in v.eff]}: the stencil result is altered by {extra or 'another array'} before it is returned")
             else:
@@ -539,7 +541,10 @@ def check_pad_basic(ctx, P, rule_id):
             pads = [e for e in o.value.eff if e[0] == "pad"]
             if o.value.name != "da":
                 bad = "does not pad the array it was given"
-            others = [e[0] for e in o.value.eff if e[0] not in ("pad", "copy", "transpose")]
+            others, unknown_ops = foreign_ops([e for e in o.value.eff if e[0] != "pad"])
+            if unknown_ops:
+                ctx.unknown(rule_id, inst, f"operation(s) {unknown_ops} on the padded array")
+                continue
             if others:
                 bad = bad or f"besides padding, the array goes through {others}: the original values and the new cells must be exactly what xarray.pad produces"
             # what each dimension receives, whichever way the calls are grouped
